@@ -185,7 +185,7 @@ func TestVerifC11BackupCrashPrefixes(t *testing.T) {
 		if err != nil {
 			t.Fatal(err)
 		}
-		c.Class = rapid.SampledFrom([]string{"small", "small", "small", "big"}).Draw(t, "class")
+		c.Class = rapid.SampledFrom([]string{"small", "small", "big"}).Draw(t, "class")
 		big := c.Class == "big"
 		if rapid.IntRange(0, 2).Draw(t, "fullOverride") > 0 {
 			c.FullAt = rapid.IntRange(1, 6).Draw(t, "fullAt")
